@@ -17,6 +17,8 @@ package plugin
 //@ func EncodeIdentity(name, data) (s)
 //@   ensures#valid s != "" ==> validname(name)                                                             [C09 C17]
 //@   call bech32.Encode#1 requires same(arg1, data)                                                        [C09 C17]
+//@   call strings.ToUpper#1 requires arg0 == name                                                          [C09 C17]
+//@   call bech32.Encode#1 requires arg0 == cat(cat("AGE-PLUGIN-", lastret("strings.ToUpper",1,0)), "-")   [C09 C17]
 //@   modifies nothing
 
 //@ func EncodeRecipient(name, data) (s)
